@@ -93,10 +93,12 @@ namespace {
 
     struct BrImbalance { std::string* why; void operator()( size_t nLevel, size_t hLeft, size_t hRight ) const { *why = "AVL imbalance at level " + std::to_string( nLevel ) + ": left height " + std::to_string( hLeft ) + ", right height " + std::to_string( hRight ); } };
 
-    template <class M, class Rcu, bool MinMax = false>
+    // CallerOwned = false drops insert(key,val)/emplace, i.e. the forms that hand a caller-owned value to the tree (see known finding F14:
+    // with traits::relaxed_insert the tree frees that value when its optimistic node creation fails and then retries with the dangling pointer)
+    template <class M, class Rcu, bool MinMax = false, bool CallerOwned = true>
     struct BronsonAdapter: Attach {
         M m;
-        static unsigned supports() { return M_INS | M_INSF | M_EMP | M_UPD | M_UPDNI | M_ERS | M_ERSF | M_EXT | M_CON | M_FND | M_ERSW | M_FNDW | ( MinMax ? ( M_EXMIN | M_EXMAX ) : 0 ); }
+        static unsigned supports() { return ( CallerOwned ? ( M_INS | M_EMP ) : 0 ) | M_INSF | M_UPD | M_UPDNI | M_ERS | M_ERSF | M_EXT | M_CON | M_FND | M_ERSW | M_FNDW | ( MinMax ? ( M_EXMIN | M_EXMAX ) : 0 ); }
         SetRes exec( int aop, int key, int64_t id )
         {
             SetRes r; r.key = key; r.a = id;
@@ -252,14 +254,18 @@ int main( int argc, char** argv )
         typedef cds::sync::pool_monitor<MtxPool> PoolMon;
         go_raw< BronsonAdapter< cc::BronsonAVLTreeMap<rcu_gpb, int, Item, br_tr<InjMon, false>>, rcu_gpb > >( "BronsonAVLTreeMap<RCU_gpb,value,injecting>" );
         go_raw< BronsonAdapter< cc::BronsonAVLTreeMap<rcu_gpi, int, Item, br_tr<PoolMon, false>>, rcu_gpi > >( "BronsonAVLTreeMap<RCU_gpi,value,pool_monitor>" );
-        go_raw< BronsonAdapter< cc::BronsonAVLTreeMap<rcu_gpt, int, Item, br_tr<InjMon, true>>, rcu_gpt > >( "BronsonAVLTreeMap<RCU_gpt,value,injecting,relaxed_insert>" );
+        go_raw< BronsonAdapter< cc::BronsonAVLTreeMap<rcu_gpt, int, Item, br_tr<InjMon, true>>, rcu_gpt, false, false > >( "BronsonAVLTreeMap<RCU_gpt,value,injecting,relaxed_insert>" );
         go_raw< BronsonPtrAdapter< cc::BronsonAVLTreeMap<rcu_gpb, int, Item*, brp_tr<InjMon, false>>, rcu_gpb > >( "BronsonAVLTreeMap<RCU_gpb,pointer,injecting>" );
-        go_raw< BronsonPtrAdapter< cc::BronsonAVLTreeMap<rcu_gpi, int, Item*, brp_tr<PoolMon, true>>, rcu_gpi > >( "BronsonAVLTreeMap<RCU_gpi,pointer,pool_monitor,relaxed_insert>" );
+        go_raw< BronsonPtrAdapter< cc::BronsonAVLTreeMap<rcu_gpi, int, Item*, brp_tr<PoolMon, false>>, rcu_gpi > >( "BronsonAVLTreeMap<RCU_gpi,pointer,pool_monitor>" );
         // the same trees with extract_min/extract_max in the concurrent alphabet: kept apart (and last) because a no-progress finding in
         // extract_min/max ends the process (see known_findings.json)
         go_raw< BronsonAdapter< cc::BronsonAVLTreeMap<rcu_gpb, int, Item, br_tr<InjMon, false>>, rcu_gpb, true > >( "BronsonAVLTreeMap<RCU_gpb,value,injecting>+extract_minmax" );
         go_raw< BronsonAdapter< cc::BronsonAVLTreeMap<rcu_gpi, int, Item, br_tr<PoolMon, false>>, rcu_gpi, true > >( "BronsonAVLTreeMap<RCU_gpi,value,pool_monitor>+extract_minmax" );
         go_raw< BronsonPtrAdapter< cc::BronsonAVLTreeMap<rcu_gpt, int, Item*, brp_tr<InjMon, false>>, rcu_gpt, true > >( "BronsonAVLTreeMap<RCU_gpt,pointer,injecting>+extract_minmax" );
+        // relaxed_insert together with caller-owned values (insert(key,val), emplace, every insertion of the pointer form): known finding F14
+        // (the process dies with a double free), therefore the very last variants
+        go_raw< BronsonAdapter< cc::BronsonAVLTreeMap<rcu_gpb, int, Item, br_tr<InjMon, true>>, rcu_gpb, false, true > >( "BronsonAVLTreeMap<RCU_gpb,value,injecting,relaxed_insert>+caller_owned_insert" );
+        go_raw< BronsonPtrAdapter< cc::BronsonAVLTreeMap<rcu_gpi, int, Item*, brp_tr<PoolMon, true>>, rcu_gpi > >( "BronsonAVLTreeMap<RCU_gpi,pointer,pool_monitor,relaxed_insert>+caller_owned_insert" );
     }
     return finish( "set_tree" );
 }
